@@ -32,7 +32,7 @@ chk("C02",
     "Counterexamples are replayed on the un-instrumented code before being reported.",
     TRUST + " Division-by-zero and sqrt-of-negative paths are cut.",
     "symbolic execution of the real Array operators on z3-backed numpy proxies; SMT validity of physical equality per path",
-    "DESIGN.md section 5 C02")
+    "DESIGN.md section 5")
 
 ALG = ("Bounded symbolic model checking of the implementation: the real osyris code runs on arrays whose elements are z3 variables; "
        "for every configuration of the stated finite skeleton (operator, operand kinds, dtypes, shapes, unit pairs) each path's obligation "
@@ -42,37 +42,37 @@ chk("C06", ALG + " Rows carry provenance symbols, so a result row mixing two sou
     "and every ordering/tie pattern is a path on which the sorted order is proved from the path condition.",
     TRUST + " Index objects are an enumeration for n<=3 rows (stated in the evidence).",
     "symbolic execution of Datagroup indexing/sortby/insert on z3-backed arrays with provenance symbols; SMT proof of sortedness per ordering path",
-    "DESIGN.md section 5 C06")
+    "DESIGN.md section 5")
 chk("C07", ALG + " Each element comparison forks, so every verdict pattern is a path; the concrete verdict must be entailed by the path "
     "condition read physically through an independent unit table.",
     TRUST + " A dead band of relative width 1e-9 around equality is left free when a unit conversion is involved.",
-    "symbolic execution of the real comparison/logical operators; SMT entailment of each verdict from the path condition", "DESIGN.md section 5 C07")
+    "symbolic execution of the real comparison/logical operators; SMT entailment of each verdict from the path condition", "DESIGN.md section 5")
 chk("C08", ALG + " Conversions, round trips and chains are proved for all values and all ordered unit pairs of the table; the catalogue of "
     "osyris-defined units is compared (through Array.to) with independently typed-in IAU/CODATA values.",
     TRUST + " Catalogue tolerance 1e-3 (published values differ at 1e-4); a fresh HOME makes osyris read /repo's defaults.py.",
-    "symbolic execution of Array.to/Vector.to; SMT validity of physical equality; finite catalogue comparison", "DESIGN.md section 5 C08")
+    "symbolic execution of Array.to/Vector.to; SMT validity of physical equality; finite catalogue comparison", "DESIGN.md section 5")
 chk("C09", ALG + " Vector results are compared component-wise with the Array operation executed in the same run; norm, dot and cross are "
     "checked against their algebraic definitions and laws as physical quantities (polynomial identities decided by z3 after monomial abstraction, "
     "falling back to nlsat).",
     TRUST + " Lifting is relative to the Array layer (C02/C07).",
-    "symbolic execution of Vector operators, norm, dot, cross; SMT (LRA via sound monomial abstraction, NRA fallback)", "DESIGN.md section 5 C09")
+    "symbolic execution of Vector operators, norm, dot, cross; SMT (LRA via sound monomial abstraction, NRA fallback)", "DESIGN.md section 5")
 chk("C10", ALG + " The catalogue of ~50 numpy functions is fixed in harness/c10.py; the oracle applies the same function to the operands "
     "expressed in CGS and checks the dimensional rule of the function's class.",
     TRUST + " Functions outside the catalogue are not claimed. Known finding: plain numbers/ndarrays mixed with dimensional Arrays.",
-    "symbolic execution of Array._wrap_numpy through the numpy protocols; SMT validity of physical equality + dimensional rule", "DESIGN.md section 5 C10")
+    "symbolic execution of Array._wrap_numpy through the numpy protocols; SMT validity of physical equality + dimensional rule", "DESIGN.md section 5")
 chk("C16", ALG + " Positions, origin, radius/sizes and payloads are symbolic; every inside/outside pattern is a path and the kept rows must be "
     "exactly those the path condition places inside the region (physically, with unit conversion).",
     TRUST + " n<=2 rows per group; 3-D.",
-    "symbolic execution of extract_sphere/extract_box; SMT entailment of row membership (NRA for the sphere)", "DESIGN.md section 5 C16")
+    "symbolic execution of extract_sphere/extract_box; SMT entailment of row membership (NRA for the sphere)", "DESIGN.md section 5")
 chk("C17", ALG + " In-place operators, copies, deep copies, container copies and slice views are run on shared symbolic data and compared with a "
     "reference aliasing model, including all sequences of <=2 (thorough 3) operations from an 8-letter alphabet.",
     TRUST + " In-place results numpy refuses to cast are outside the premise (cut).",
-    "symbolic execution of in-place/copy/view operations against an aliasing reference model; SMT validity per path", "DESIGN.md section 5 C17")
+    "symbolic execution of in-place/copy/view operations against an aliasing reference model; SMT validity per path", "DESIGN.md section 5")
 chk("C20", "Dictionary semantics: CrossHair (z3-backed symbolic execution) confirms over all paths one inductive step (arbitrary valid pre-state over keys "
     "{a,b,c}, one of 8 operations with arbitrary arguments) for Datagroup and Dataset against a Python dict model, with a reachability twin per "
     "contract. Equality: the real Datagroup.__eq__ runs on symbolic members; on every path the verdict must be the physical one.",
     TRUST + " CrossHair 0.0.110 trusted; contracts use stand-in values with .shape/.name.",
-    "CrossHair contracts (inductive step) + symbolic execution of __eq__ with SMT entailment", "DESIGN.md section 5 C20")
+    "CrossHair contracts (inductive step) + symbolic execution of __eq__ with SMT entailment", "DESIGN.md section 5")
 
 chk("C05", ALG + " (1) the real binning kernel (Python source of the numba kernel, int() = truncation) on symbolic points and limits: the index "
     "computation forks over the bins and on every path each point must be in the bin the path condition places it in, counts and sums must "
@@ -80,13 +80,13 @@ chk("C05", ALG + " (1) the real binning kernel (Python source of the numba kerne
     "with log10 uninterpreted + monotonicity); (3) two-iteration interference analysis of the kernel's prange loop cut out of its AST, a "
     "conflict being replayed on the compiled kernel with all threads.",
     TRUST + " numba is assumed to execute the Python semantics of the loop body per iteration; points exactly on a bin edge are left free.",
-    "symbolic execution of hist2d.py_func / histogram2d; SMT (LRA+ToInt); AST-derived two-iteration interference analysis", "DESIGN.md section 5 C05")
+    "symbolic execution of hist2d.py_func / histogram2d; SMT (LRA+ToInt); AST-derived two-iteration interference analysis", "DESIGN.md section 5")
 chk("C18", ALG + " The normal vector is fully symbolic (all non-zero vectors, both branches of the z == 0 test); orthonormality, orientation and "
     "u x v = n are algebraic identities over square-root variables proved in QF_NRA; top/side: the angular-momentum vector handed to the basis "
     "construction is proved equal to the oracle's sum m r x w over the cells inside the window (every in/out pattern is a path) and the basis "
     "is re-proved for an arbitrary vector in its place (compositional cut).",
     TRUST + " Window omitted: concrete position layouts (symbolic radius under a square root is beyond nlsat in minutes).",
-    "symbolic execution of get_direction/VectorBasis; SMT QF_NRA identities", "DESIGN.md section 5 C18")
+    "symbolic execution of get_direction/VectorBasis; SMT QF_NRA identities", "DESIGN.md section 5")
 
 MAPTXT = ("Compositional bounded symbolic model checking of the real map(): (A) osyris.map(plot=False) runs on symbolic cells/origin/depth with the "
           "numba kernel replaced by a recorder: pre-selection soundness is proved for an ARBITRARY point of the window/slab (QF_NRA), the kernel's "
@@ -98,11 +98,11 @@ MAPTXT = ("Compositional bounded symbolic model checking of the real map(): (A) 
 chk("C03", MAPTXT, TRUST + " Window size concrete per configuration; magnitudes within 1e6 window sizes; cells do not overlap; faces free; numba "
     "executes the Python semantics of the loop body per iteration.",
     "symbolic execution of map()/evaluate_on_grid.py_func with a recorder cut; SMT (QF_NRA selection, LRA+ToInt kernel); AST-derived interference analysis",
-    "DESIGN.md section 5 C03")
+    "DESIGN.md section 5")
 chk("C11", MAPTXT + " Thick maps: symbolic dz (one pixel .. 3 windows), number/position of depth samples (rounding condition proved for the symbolic "
     "dz), 8 reductions, resolution dict with/without z.",
     TRUST + " As C03; dz in two ranges (<= window, >= window) so that max(dx,dy,dz) is resolved.",
-    "symbolic execution of map(dz=...)/evaluate_on_grid.py_func with a recorder cut; SMT (QF_NRA, LRA+ToInt)", "DESIGN.md section 5 C11")
+    "symbolic execution of map(dz=...)/evaluate_on_grid.py_func with a recorder cut; SMT (QF_NRA, LRA+ToInt)", "DESIGN.md section 5")
 
 chk("C19", "Precedence: CrossHair confirms over all paths, for each of the 8 options symbolic at layer and call level (plus all-set / none-set and "
     "all 256 set-masks), that parse_layer / Layer.update give the layer-level value priority, leave the given Layer and its option dict "
@@ -110,7 +110,7 @@ chk("C19", "Precedence: CrossHair confirms over all paths, for each of the 8 opt
     "(thin/thick, resolution int/dict/partial dict/None) and histogram2d(plot=False) run twice on symbolic data with all argument objects "
     "snapshotted (terms, units, names, option fields, dict contents, identities); the second result must be provably equal to the first.",
     TRUST + " PARTIAL: histogram1d, scatter, plot and every plot=True path go through matplotlib and are not covered.",
-    "CrossHair contracts on parse_layer/Layer + symbolic execution of map/histogram2d with argument snapshots", "DESIGN.md section 5 C19")
+    "CrossHair contracts on parse_layer/Layer + symbolic execution of map/histogram2d with argument snapshots", "DESIGN.md section 5")
 
 LOADTXT = ("Bounded symbolic model checking of the real loader: RamsesDataset(...).load() runs on SYMBOLIC RAMSES FILES (ramses/layout.py, written from "
            "RAMSES' own output routines): noutput, the width of the bound_key record, the number of ghost/boundary grids in every (file, level, "
@@ -121,30 +121,30 @@ LOADTXT = ("Bounded symbolic model checking of the real loader: RamsesDataset(..
            "real binary files through the un-instrumented loader.")
 chk("C01", LOADTXT, TRUST + " Structure enumerated (ndim 1-3, ncpu<=2(3), levels<=3(4), boundary regions<=1(2), 4 tree shapes, 3 variable lists); "
     "text files parsed by osyris' own eval/np.loadtxt on enumerated texts; byte order and >=2GiB records outside.",
-    "symbolic execution of the real loader on symbolic files; SMT (LIA record-locator obligations, LRA value obligations)", "DESIGN.md sections 4, 5 C01")
+    "symbolic execution of the real loader on symbolic files; SMT (LIA record-locator obligations, LRA value obligations)", "DESIGN.md sections 4, 5")
 
 chk("C13", LOADTXT + " Here with select=...: variable lists per group (every all-but-one subset, single hydro variables, partial component sets: the "
     "readers' skip branch is then on the path and covered by the locator obligation), groups as a list / switched off with False (files of "
     "switched-off readers must not be opened). Naming of merged vectors: CrossHair contracts on make_vector_arrays, confirmed over all paths.",
     TRUST + " Not all 2^k variable subsets; naming contracts over names of <= 2 characters + clash candidates with a recording Vector stand-in.",
-    "symbolic execution of the loader with variable/group selections on symbolic files; CrossHair contracts for component-name merging", "DESIGN.md section 5 C13")
+    "symbolic execution of the loader with variable/group selections on symbolic files; CrossHair contracts for component-name merging", "DESIGN.md section 5")
 chk("C14", LOADTXT + " Particle files: the lengths of the five skipped header records and all payloads (double, integer, byte columns in 3 orders) are "
     "symbolic; concatenation over CPU files, row alignment, units, sortby on a float and on an int key (ordering proved from the path condition). "
     "Sink files: numpy.loadtxt replaced by its contract with symbolic entries, both unit-line dialects, one/two sinks, empty and missing file.",
     TRUST + " Particle counts per CPU concrete (0-2); CSV tokenisation is numpy's C code (stubbed by contract).",
-    "symbolic execution of PartReader/SinkReader/Loader on symbolic files; SMT (LIA locator, LRA values)", "DESIGN.md section 5 C14")
+    "symbolic execution of PartReader/SinkReader/Loader on symbolic files; SMT (LIA locator, LRA values)", "DESIGN.md section 5")
 
 chk("C12", LOADTXT + " Here with level predicates (l<=k, l<k, l==k, l>=k, a<l<b for every k) alone, combined with a symbolic density threshold, per "
     "file with symbolic ghost counts: meta['lmax'] must be the highest accepted level L, no record of a level above L may be read, the rows must "
     "be the cells of the tree truncated at L that satisfy the predicate (cells at L with their stored coarse values), and when 1..L are "
     "accepted the cell volumes must add up to the box volume.",
     TRUST + " Trees with one branch refined down to levelmax; predicate forms enumerated.",
-    "symbolic execution of the loader with level selections on symbolic files; SMT (LIA locator, LRA values/volumes)", "DESIGN.md section 5 C12")
+    "symbolic execution of the loader with level selections on symbolic files; SMT (LIA locator, LRA values/volumes)", "DESIGN.md section 5")
 chk("C15", LOADTXT + " Here sequences of load() calls on ONE dataset (all ordered pairs, thorough: triples, over an 8-call alphabet: full, part-only, "
     "variable subset, value / position / level predicate, cpu_list, sortby) are compared group by group with fresh datasets executing only the "
     "relevant call; groups from earlier calls must be the same objects, unchanged; metadata counts must match.",
     TRUST + " Densities assumed increasing and stored centres true so that predicates do not multiply the paths.",
-    "symbolic execution of load() call sequences vs fresh datasets on symbolic files; SMT equality of the resulting terms", "DESIGN.md section 5 C15")
+    "symbolic execution of load() call sequences vs fresh datasets on symbolic files; SMT equality of the resulting terms", "DESIGN.md section 5")
 
 chk("C04", "Bounded symbolic model checking in four parts, all on the real code: (a) structure of _hilbert3d on symbolic integer coordinates (the bit tests "
     "fork, so the solver walks every cell): range, prefix property, injectivity; (b) _get_cpu_list with a symbolic bounding box and a symbolic increasing "
@@ -155,7 +155,7 @@ chk("C04", "Bounded symbolic model checking in four parts, all on the real code:
     TRUST + " PARTIAL: the cell key is osyris' own _hilbert3d (no independent RAMSES offline); end-to-end outputs have ALIGNED decompositions (every stored "
     "cell keyed inside its file's CPU interval) -- boxes smaller than a leaf's father cell at a domain boundary, and 2-D/1-D Hilbert decompositions "
     "(RAMSES uses hilbert2d) are NOT covered (see DESIGN.md, suspected weaknesses).",
-    "symbolic execution of _hilbert3d/_get_cpu_list/hilbert_cpu_list and of selective loads on symbolic files; SMT (LIA, LRA)", "DESIGN.md section 5 C04")
+    "symbolic execution of _hilbert3d/_get_cpu_list/hilbert_cpu_list and of selective loads on symbolic files; SMT (LIA, LRA)", "DESIGN.md section 5")
 
 for pid in ["C01", "C03", "C04", "C05", "C06", "C07", "C08", "C09", "C10", "C11", "C12", "C13", "C14", "C15", "C16",
             "C17", "C18", "C19", "C20"]:
